@@ -54,7 +54,7 @@ def run_shard(k, ids, seeds=None):
     for sid in ids:
         d = VERIF + '/seeded/' + sid
         meta = json.load(open(d + '/meta.json'))
-        own = re.match(r'C\d\d', meta['property']).group(0)
+        own = (re.match(r'C\d\d', meta['property']) or re.match(r'C\d\d', meta['id'])).group(0)
         if seeds:
             rc, out = sh(['patch', '-p1', '-s', '-d', base + '/repo', '-i', d + '/patch.diff'])
             if rc != 0:
